@@ -13,6 +13,11 @@ type compiledAxiom struct {
 }
 
 func (w *World) compileAxioms() error {
+	// axioms are only used through explicit "use" instances (quantified string axioms make the
+	// solvers unreliable); nothing to compile ahead of time
+	if true {
+		return nil
+	}
 	for _, ax := range w.P.Axioms {
 		var err error
 		func() {
